@@ -47,3 +47,231 @@ Proof.
   induction k as [|k IH]; intros l V; [exact V|]. destruct l as [|c r]; [exact V|]. cbn [skipn].
   apply IH. intros x Hx. apply V. right. exact Hx.
 Qed.
+
+(* ---------------------------------------------------------------------------------- *)
+(* where countmore stops (column limit only): it consumes k code points of [rest], arrives at a
+   position whose column is start + width of what it consumed, never beyond the limit, and the
+   next code point -- if there is one -- is a base character that no longer fits.  The result
+   does not depend on [pos]: a zero-width code point never stops the count. *)
+
+Lemma countmore_stop : forall rest pos here lc,
+  valid rest -> sp_col here <= lc -> 0 <= sp_col here ->
+  exists k g, (k <= length rest)%nat /\
+    countmore rest pos here (-1) lc =
+      mkPos (sp_cp here + Z.of_nat k) g (sp_col here + tw (firstn k rest)) /\
+    sp_col here + tw (firstn k rest) <= lc /\
+    (k = length rest \/
+     exists c, nth_error rest k = Some c /\ 0 < cpw c /\ sp_col here + tw (firstn k rest) + cpw c > lc).
+Proof.
+  induction rest as [|c rest IH]; intros pos here lc V Hle H0.
+  - exists 0%nat, (sp_gr here). cbn [countmore length firstn tw]. destruct here as [a b d]. cbn [sp_cp sp_gr sp_col] in *.
+    split; [lia|]. split; [f_equal; lia|]. split; [lia|]. left. reflexivity.
+  - cbn [countmore].
+    assert (Hc : 0 <= cpw c) by (apply V; left; reflexivity).
+    assert (Vr : valid rest) by (intros x Hx; apply V; right; exact Hx).
+    cbn [Z.eqb Pos.eqb negb andb].
+    assert (Hlc : (lc =? -1) = false) by (apply Z.eqb_neq; lia). rewrite Hlc. cbn [negb andb].
+    destruct (Z.gtb_spec (sp_col here + cpw c) lc) as [Hgt|Hfit].
+    + (* does not fit: a base character; stop here *)
+      assert (0 < cpw c) by lia. destruct (Z.ltb_spec 0 (cpw c)); [|lia].
+      exists 0%nat, (sp_gr here). cbn [firstn tw length nth_error]. destruct here as [a b d]. cbn [sp_cp sp_gr sp_col] in *.
+      split; [lia|]. split; [f_equal; lia|]. split; [lia|]. right. exists c. split; [reflexivity|]. split; lia.
+    + set (here' := mkPos (sp_cp here + 1) (sp_gr here + (if 0 <? cpw c then 1 else 0)) (sp_col here + cpw c)).
+      destruct (IH (if 0 <? cpw c then here else pos) here' lc Vr) as (k & g & Hk & E & Hb & Hn);
+        [cbn [here' sp_col]; lia|cbn [here' sp_col]; lia|].
+      exists (S k), g. cbn [length firstn tw nth_error].
+      split; [lia|]. split.
+      * rewrite E. cbn [here' sp_cp sp_col]. f_equal; lia.
+      * cbn [here' sp_col] in Hb, Hn. split; [lia|].
+        destruct Hn as [Hn|(c' & Hn1 & Hn2 & Hn3)]; [left; lia|right]. exists c'. split; [exact Hn1|]. split; lia.
+Qed.
+
+(* specialised to the two ways renderbuffer.c counts *)
+Lemma count_from0_stop : forall s lc,
+  valid s -> 0 <= lc ->
+  exists k g, (k <= length s)%nat /\
+    count_from0 s (-1) lc = mkPos (Z.of_nat k) g (tw (firstn k s)) /\
+    tw (firstn k s) <= lc /\
+    (k = length s \/ exists c, nth_error s k = Some c /\ 0 < cpw c /\ tw (firstn k s) + cpw c > lc).
+Proof.
+  intros s lc V Hl. unfold count_from0.
+  destruct (countmore_stop s spos0 spos0 lc V) as (k & g & Hk & E & Hb & Hn); cbn [spos0 sp_col]; try lia.
+  exists k, g. cbn [spos0 sp_cp sp_col] in *. rewrite E. repeat split; auto; try lia.
+Qed.
+
+Lemma firstn_skipn_tw : forall a b (s : list Z), tw (firstn (a + b) s) = tw (firstn a s) + tw (firstn b (skipn a s)).
+Proof.
+  induction a as [|a IH]; intros b s; cbn [plus firstn skipn tw]; [lia|].
+  destruct s as [|c s]; cbn [firstn skipn tw]; [destruct b; cbn; lia|]. rewrite IH. lia.
+Qed.
+
+Lemma count_on_stop : forall s k0 g0 lc,
+  valid s -> (k0 <= length s)%nat -> 0 <= tw (firstn k0 s) <= lc ->
+  exists k g, (k0 <= k <= length s)%nat /\
+    count_on s (mkPos (Z.of_nat k0) g0 (tw (firstn k0 s))) (-1) lc = mkPos (Z.of_nat k) g (tw (firstn k s)) /\
+    tw (firstn k s) <= lc /\
+    (k = length s \/ exists c, nth_error s k = Some c /\ 0 < cpw c /\ tw (firstn k s) + cpw c > lc).
+Proof.
+  intros s k0 g0 lc V Hk0 Hc. unfold count_on, skipz. cbn [sp_cp]. rewrite Nat2Z.id.
+  set (p0 := mkPos (Z.of_nat k0) g0 (tw (firstn k0 s))).
+  destruct (countmore_stop (skipn k0 s) p0 p0 lc (valid_skipn k0 s V)) as (k & g & Hk & E & Hb & Hn);
+    cbn [p0 sp_col]; try lia.
+  rewrite skipn_length in Hk.
+  exists (k0 + k)%nat, g. split; [lia|]. rewrite E. cbn [p0 sp_cp sp_col] in *.
+  rewrite firstn_skipn_tw.
+  split; [f_equal; lia|]. split; [lia|].
+  destruct Hn as [Hn|(c & Hn1 & Hn2 & Hn3)].
+  - left. rewrite skipn_length in Hn. lia.
+  - right. exists c. split; [|split; [assumption|lia]].
+    rewrite <- Hn1. clear. revert s. induction k0 as [|k0 IH]; intros s; cbn [plus skipn]; [reflexivity|].
+    destruct s as [|x s]; cbn [nth_error skipn]; [destruct k; reflexivity|apply IH].
+Qed.
+
+(* ---------------------------------------------------------------------------------- *)
+(* the text case of the flush prints exactly the span's columns *)
+
+Lemma firstn_all_tw : forall (s : list Z), tw (firstn (length s) s) = tw s.
+Proof. intros. now rewrite firstn_all. Qed.
+
+Lemma tw_firstn_S : forall s k c, nth_error s k = Some c -> tw (firstn (S k) s) = tw (firstn k s) + cpw c.
+Proof.
+  induction s as [|x s IH]; intros k c H; [destruct k; discriminate|].
+  destruct k as [|k]; cbn [nth_error] in H.
+  - inversion H; subst. cbn [firstn tw]. lia.
+  - rewrite !firstn_cons. cbn [tw]. rewrite (IH k c H). lia.
+Qed.
+
+Lemma valid_firstn : forall k l, valid l -> valid (firstn k l).
+Proof.
+  induction k as [|k IH]; intros l V; [intros c []|]. destruct l as [|x r]; [intros c []|]. cbn [firstn].
+  intros c [<-|Hc]; [apply V; left; reflexivity|]. apply (IH r); [intros y Hy; apply V; right; exact Hy|exact Hc].
+Qed.
+
+Lemma tw_firstn_mono : forall s a b, valid s -> (a <= b)%nat -> tw (firstn a s) <= tw (firstn b s).
+Proof.
+  intros s a b V H. replace b with (a + (b - a))%nat by lia. rewrite firstn_skipn_tw.
+  assert (0 <= tw (firstn (b - a) (skipn a s))) by (apply tw_nonneg, valid_firstn, valid_skipn, V).
+  lia.
+Qed.
+
+Lemma log_cols_app : forall a b, log_cols (a ++ b) = log_cols a + log_cols b.
+Proof.
+  intros a b. unfold log_cols.
+  assert (G : forall l z, fold_left (fun a o => a + op_cols o) l z = z + fold_left (fun a o => a + op_cols o) l 0).
+  { induction l as [|o l IH]; intros z; cbn [fold_left]; [lia|]. rewrite IH, (IH (0 + op_cols o)). lia. }
+  rewrite fold_left_app, G. lia.
+Qed.
+
+Lemma log_cols_blanks : forall k, log_cols (repeat (TPrint [32]) k) = Z.of_nat k.
+Proof.
+  induction k as [|k IH]; [reflexivity|]. change (repeat (TPrint [32]) (S k)) with ([TPrint [32]] ++ repeat (TPrint [32]) k).
+  rewrite log_cols_app, IH. unfold log_cols. cbn [fold_left op_cols]. change (text_width [32]) with 1. lia.
+Qed.
+
+(* the positions text_emit computes, and the width of what it prints *)
+Theorem text_emit_cols : forall p s offs n,
+  text_valid s = true -> 0 <= offs -> 1 <= n -> offs + n <= text_width s ->
+  log_cols (text_emit p s offs n) = n.
+Proof.
+  intros p s offs n Hv Ho Hn Hw. rewrite text_width_tw in Hw.
+  assert (V := text_valid_valid s Hv).
+  unfold text_emit, slice_start, slice_end.
+  destruct (count_from0_stop s offs V Ho) as (k0 & g0 & Hk0 & E0 & B0 & N0). rewrite E0. cbn [sp_col sp_cp].
+  (* the start of the slice: st, at column c1 with offs <= c1 <= offs + 1 *)
+  assert (ST : exists k1 g1, (k1 <= length s)%nat /\
+             (if tw (firstn k0 s) <? offs
+              then count_on s (mkPos (Z.of_nat k0) g0 (tw (firstn k0 s))) (-1) (offs + 1)
+              else mkPos (Z.of_nat k0) g0 (tw (firstn k0 s))) = mkPos (Z.of_nat k1) g1 (tw (firstn k1 s)) /\
+             offs <= tw (firstn k1 s) <= offs + 1).
+  { destruct (Z.ltb_spec (tw (firstn k0 s)) offs) as [Hlt|Hge].
+    - (* cut inside a double-width character *)
+      destruct N0 as [N0|(c & Hc & Hc1 & Hc2)].
+      + exfalso. subst k0. rewrite firstn_all_tw in Hlt. lia.
+      + pose proof (cpw_le2 c).
+        assert (Hk0' : (k0 < length s)%nat) by (apply nth_error_Some; congruence).
+        destruct (count_on_stop s k0 g0 (offs + 1) V Hk0) as (k1 & g1 & Hk1 & E1 & B1 & N1).
+        { pose proof (tw_nonneg (firstn k0 s) (valid_firstn k0 s V)). lia. }
+        exists k1, g1. split; [lia|]. split; [exact E1|]. split; [|lia].
+        (* it got past the double-width character *)
+        destruct (Nat.eq_dec k1 k0) as [->|Hne].
+        * exfalso. destruct N1 as [N1|(c' & Hc' & Hc1' & Hc2')]; [lia|]. rewrite Hc in Hc'. inversion Hc'; subst c'. lia.
+        * assert (Hm := tw_firstn_mono s (S k0) k1 V ltac:(lia)). rewrite (tw_firstn_S s k0 c Hc) in Hm. lia.
+    - exists k0, g0. split; [lia|]. split; [reflexivity|]. lia. }
+  destruct ST as (k1 & g1 & Hk1 & E1 & C1). rewrite E1. cbn [sp_col sp_cp].
+  destruct (count_on_stop s k1 g1 (offs + n) V Hk1) as (k2 & g2 & Hk2 & E2 & B2 & N2).
+  { pose proof (tw_nonneg (firstn k1 s) (valid_firstn k1 s V)). lia. }
+  rewrite E2. cbn [sp_col sp_cp].
+  assert (Hm := tw_firstn_mono s k1 k2 V ltac:(lia)).
+  change (TSetPen p :: ?l) with ([TSetPen p] ++ l).
+  rewrite !log_cols_app, !log_cols_blanks.
+  assert (Es : log_cols (if Z.of_nat k1 <? Z.of_nat k2
+                         then [TPrint (slice s (mkPos (Z.of_nat k1) g1 (tw (firstn k1 s))) (mkPos (Z.of_nat k2) g2 (tw (firstn k2 s))))]
+                         else []) = tw (firstn k2 s) - tw (firstn k1 s)).
+  { destruct (Z.ltb_spec (Z.of_nat k1) (Z.of_nat k2)).
+    - unfold log_cols. cbn [fold_left op_cols]. rewrite text_width_tw.
+      unfold slice, firstz, skipz. cbn [sp_cp]. rewrite Nat2Z.id.
+      replace (Z.to_nat (Z.of_nat k2 - Z.of_nat k1)) with (k2 - k1)%nat by lia.
+      replace k2 with (k1 + (k2 - k1))%nat at 2 by lia. rewrite firstn_skipn_tw. lia.
+    - assert (k2 = k1) by lia. subst k2. unfold log_cols. cbn. lia. }
+  rewrite Es. unfold log_cols at 1. cbn [fold_left op_cols]. lia.
+Qed.
+
+(* the same analysis, keeping the pieces: what text_emit emits, by indices into the string *)
+Lemma text_emit_shape : forall p s offs n,
+  text_valid s = true -> 0 <= offs -> 1 <= n -> offs + n <= text_width s ->
+  exists k1 k2, (k1 <= k2 <= length s)%nat /\
+    offs <= tw (firstn k1 s) <= offs + 1 /\
+    tw (firstn k1 s) <= tw (firstn k2 s) <= offs + n /\
+    text_emit p s offs n =
+      TSetPen p :: repeat (TPrint [32]) (Z.to_nat (tw (firstn k1 s) - offs)) ++
+      (if (k1 <? k2)%nat then [TPrint (firstn (k2 - k1) (skipn k1 s))] else []) ++
+      repeat (TPrint [32]) (Z.to_nat (offs + n - tw (firstn k2 s))) /\
+    (k1 = length s \/ exists c, nth_error s k1 = Some c /\ 0 < cpw c) /\
+    (k2 = length s \/ exists c, nth_error s k2 = Some c /\ 0 < cpw c /\ tw (firstn k2 s) + cpw c > offs + n) /\
+    (tw (firstn k1 s) = offs \/
+     (tw (firstn k1 s) = offs + 1 /\
+      exists k0 c, (k0 <= length s)%nat /\ tw (firstn k0 s) < offs /\ nth_error s k0 = Some c /\ 0 < cpw c /\
+                   tw (firstn k0 s) + cpw c > offs)).
+Proof.
+  intros p s offs n Hv Ho Hn Hw. rewrite text_width_tw in Hw.
+  assert (V := text_valid_valid s Hv).
+  unfold text_emit, slice_start, slice_end.
+  destruct (count_from0_stop s offs V Ho) as (k0 & g0 & Hk0 & E0 & B0 & N0). rewrite E0. cbn [sp_col sp_cp].
+  assert (ST : exists k1 g1, (k1 <= length s)%nat /\
+             (if tw (firstn k0 s) <? offs
+              then count_on s (mkPos (Z.of_nat k0) g0 (tw (firstn k0 s))) (-1) (offs + 1)
+              else mkPos (Z.of_nat k0) g0 (tw (firstn k0 s))) = mkPos (Z.of_nat k1) g1 (tw (firstn k1 s)) /\
+             offs <= tw (firstn k1 s) <= offs + 1 /\
+             (k1 = length s \/ exists c, nth_error s k1 = Some c /\ 0 < cpw c) /\
+             (tw (firstn k1 s) = offs \/
+              (tw (firstn k1 s) = offs + 1 /\
+               exists k0 c, (k0 <= length s)%nat /\ tw (firstn k0 s) < offs /\ nth_error s k0 = Some c /\ 0 < cpw c /\
+                            tw (firstn k0 s) + cpw c > offs))).
+  { destruct (Z.ltb_spec (tw (firstn k0 s)) offs) as [Hlt|Hge].
+    - destruct N0 as [N0|(c & Hc & Hc1 & Hc2)].
+      + exfalso. subst k0. rewrite firstn_all_tw in Hlt. lia.
+      + pose proof (cpw_le2 c).
+        assert (Hk0' : (k0 < length s)%nat) by (apply nth_error_Some; congruence).
+        destruct (count_on_stop s k0 g0 (offs + 1) V Hk0) as (k1 & g1 & Hk1 & E1 & B1 & N1).
+        { pose proof (tw_nonneg (firstn k0 s) (valid_firstn k0 s V)). lia. }
+        assert (Lo : offs + 1 <= tw (firstn k1 s)).
+        { destruct (Nat.eq_dec k1 k0) as [->|Hne].
+          -- exfalso. destruct N1 as [N1|(c' & Hc' & Hc1' & Hc2')]; [lia|]. rewrite Hc in Hc'. inversion Hc'; subst c'. lia.
+          -- assert (Hm := tw_firstn_mono s (S k0) k1 V ltac:(lia)). rewrite (tw_firstn_S s k0 c Hc) in Hm. lia. }
+        exists k1, g1. split; [lia|]. split; [exact E1|]. split; [lia|]. split.
+        * destruct N1 as [N1|(c' & Hc' & Hc1' & _)]; [left; exact N1|right; eauto].
+        * right. split; [lia|]. exists k0, c. repeat split; try assumption; lia.
+    - exists k0, g0. split; [lia|]. split; [reflexivity|]. split; [lia|]. split.
+      + destruct N0 as [N0|(c' & Hc' & Hc1' & _)]; [left; exact N0|right; eauto].
+      + left. lia. }
+  destruct ST as (k1 & g1 & Hk1 & E1 & C1 & NB1 & LD). rewrite E1. cbn [sp_col sp_cp].
+  destruct (count_on_stop s k1 g1 (offs + n) V Hk1) as (k2 & g2 & Hk2 & E2 & B2 & N2).
+  { pose proof (tw_nonneg (firstn k1 s) (valid_firstn k1 s V)). lia. }
+  rewrite E2. cbn [sp_col sp_cp].
+  assert (Hm := tw_firstn_mono s k1 k2 V ltac:(lia)).
+  exists k1, k2. split; [lia|]. split; [exact C1|]. split; [lia|]. split; [|split; [exact NB1|split; [exact N2|exact LD]]].
+  f_equal. f_equal. f_equal.
+  destruct (Z.ltb_spec (Z.of_nat k1) (Z.of_nat k2)); destruct (Nat.ltb_spec k1 k2); try lia; [|reflexivity].
+  unfold slice, firstz, skipz. cbn [sp_cp]. rewrite Nat2Z.id.
+  replace (Z.to_nat (Z.of_nat k2 - Z.of_nat k1)) with (k2 - k1)%nat by lia. reflexivity.
+Qed.
